@@ -10,8 +10,10 @@ addresses of *both* families in one 128-bit space (`Addr(u128)`, an IPv4 address
         self.ipv4.contains_roa(roa_address) || self.ipv6.contains_roa(roa_address)
     }
 
-compares the prefix' range in that space with the blocks of both families (`holdsCode`).
-What the property means by "holds" is `holdsSpec`: a block of the prefix' own family.
+compares the prefix' range in that space with the blocks of both families (`holdsPinned`;
+that was krill's test in the pinned tree, finding F-C05-2).  What the property means by
+"holds" is `holdsSpec`: a block of the prefix' own family; since fix f600a28f krill tests
+exactly that (`holdsCode`).
 rpki-rs's block arithmetic (normalisation, union, difference) is not modelled; the harness
 prints the normalised blocks.
 
@@ -49,8 +51,17 @@ def ResSet.containsAsn (r : ResSet) (a : Nat) : Bool := rangesContain r.asn [(a,
 def blocksContainRoa (blocks : List Range) (p : Prefix) : Bool :=
   blocks.any (fun b => decide (b.1 ≤ p.lo128) && decide (p.hi128 ≤ b.2))
 
-/-- `ResourceSet::contains_roa_address` as written: either family's blocks. -/
+/-- `RoaPayload::is_held_by` (api/roa.rs, after fix f600a28f): the blocks of the prefix' own
+family.  This is the test of `Routes::process_updates`, `Routes::filter` and
+`BgpAnalyser::analyse`. -/
 def ResSet.holdsCode (r : ResSet) (roa : Roa) : Bool :=
+  match roa.pfx.fam with
+  | .v4 => blocksContainRoa r.v4 roa.pfx
+  | .v6 => blocksContainRoa r.v6 roa.pfx
+
+/-- COUNTER-MODEL – the test of the pinned tree (before fix f600a28f),
+`ResourceSet::contains_roa_address` as rpki-rs writes it: either family's blocks. -/
+def ResSet.holdsPinned (r : ResSet) (roa : Roa) : Bool :=
   blocksContainRoa r.v4 roa.pfx || blocksContainRoa r.v6 roa.pfx
 
 /-- Holding a prefix: a block of the prefix' own family spans it. -/
